@@ -50,15 +50,20 @@ Definition host_state (sym : str) (me : str) : option (pst * list tok) :=
   | None => None
   end.
 
+(* nothing else is attached to the marker atom: it ends the string or its branch *)
+Definition post_ok (post : list tok) : bool :=
+  match post with [] => true | TClose :: _ => true | _ => false end.
+
 Definition splice_check (sym : str) (me child : str) : splice_verdict :=
   match host_state sym me, lexS child with
-  | Some (st, _), Some (TAtom a0 :: rest) =>
+  | Some (st, post), Some (TAtom a0 :: rest) =>
       match first_reused st rest with
       | Some l => SpReused l
       | None =>
           match p_cur st, p_pend st with
           | Some _, None =>
-              if forallb not_dot rest && Nat.eqb (length (p_slots st)) (length (p_atoms st)) then SpFresh else SpOther
+              if forallb not_dot rest && Nat.eqb (length (p_slots st)) (length (p_atoms st)) && post_ok post
+              then SpFresh else SpOther
           | _, _ => SpOther
           end
       end
@@ -66,15 +71,14 @@ Definition splice_check (sym : str) (me child : str) : splice_verdict :=
   end.
 
 (* the loop of merge_int: one verdict per child, on the string as it stands when that child is plugged in.
-   For an N-marker the child's first atom is rewritten to N and the rest is wrapped in a branch: the labels, and so
-   the verdict on freshness, are those of the child. *)
+   For an N-marker the text put in is "N(" + child[1:] + ")": that text is what the check is given. *)
 Fixpoint splice_children (me : str) (pairs : list (str * str)) (children : list str) : list splice_verdict :=
   match children, pairs with
   | [], _ => []
   | _, [] => []
   | ch :: cr, (osym, nsym) :: pr =>
       let v := if containsb osym me then splice_check osym me ch
-               else if containsb nsym me then splice_check nsym me ch else SpOther in
+               else if containsb nsym me then splice_check nsym me ("N"%char :: "("%char :: tl ch ++ [")"%char]) else SpOther in
       v :: match merge_child me osym nsym ch with
            | MOk me' => splice_children me' pr cr
            | MRaise => []
